@@ -2,7 +2,7 @@
 //
 //	h_c17 run < cases        case line:  file TAB <path>
 //
-// result line:  <tree export> TAB <spans> TAB <findings> TAB <info>
+// result line:  <tree export> TAB <spans> TAB <findings> TAB <info> TAB <Kind=count,...>
 //
 //	spans:    "<id>:<Pos()>:<End()>" per node in id order ("P" when the method panics)
 //	findings: ";"-separated "<Kind>@<offset>|<what>|<detail>", or "ok"   (the direct oracle, below)
@@ -353,6 +353,16 @@ func main() {
 					}
 				}
 				info := fmt.Sprintf("nodes=%d", len(ex.Nodes))
+				kh := map[string]int{}
+				for _, n := range ex.Nodes {
+					kh[astx.KindName(n)]++
+				}
+				var kparts []string
+				for k, c := range kh {
+					kparts = append(kparts, fmt.Sprintf("%s=%d", k, c))
+				}
+				sort.Strings(kparts)
+				kinds := strings.Join(kparts, ",")
 				verdict := "ok"
 				if p.err != nil {
 					info += " parse-errors"
@@ -376,7 +386,7 @@ func main() {
 						info += fmt.Sprintf(" %s=%d", k, stats[k])
 					}
 				}
-				fmt.Fprintf(out, "%s\t%s\t%s\t%s\n", tree, sb.String(), verdict, info)
+				fmt.Fprintf(out, "%s\t%s\t%s\t%s\t%s\n", tree, sb.String(), verdict, info, kinds)
 			}
 		}
 		if rerr != nil {
